@@ -286,6 +286,7 @@ Record lspec (d : durable) (v : volatile) (p : dpc) (d' : durable) (v' : volatil
   ls_lws : v_lws v' = v_lws v \/ (exists e, p = QSeq e /\ v_lws v' = fst e)
            \/ (exists rest maxs fl0, (p = QScan rest maxs fl0 \/ p = QRFinish maxs fl0) /\ v_lws v' = maxs);
   ls_own : own_ok d p -> own_ok d' p';
+  ls_fresh : forall x, fresh_of v p x -> InK x (wal_sbs d') /\ fst x = v_next v /\ d_flushed d' = d_flushed d;
   ls_trunc : forall m k, p' = QTrunc m k -> p = QLoad k /\ m = v_lws v;
   ls_persist : forall m k, p' = QPersist m k -> p = QTrunc m k
 }.
@@ -315,8 +316,11 @@ Ltac split_in :=
          | H : False |- _ => destruct H
          end.
 
+Ltac nofresh :=
+  try solve [match goal with H : fresh_of _ _ _ |- _ => destruct H as (? & ? & ?); discriminate end].
+
 Ltac lfin :=
-  try discriminate; auto using dur_same;
+  try discriminate; nofresh; auto using dur_same;
   try solve [unfold vL in *; inapp; tauto];
   try solve [exfalso; match goal with Ht : forall m k', ?p <> QTrunc m k', E : ?p = QTrunc _ _ |- _ => eapply Ht; exact E end];
   try solve [exfalso; match goal with Ht : forall m k', ?p <> QPersist m k', E : ?p = QPersist _ _ |- _ => eapply Ht; exact E end];
@@ -375,18 +379,28 @@ Definition pc_cont (p : dpc) : option dcont :=
   | _ => None
   end.
 Definition wkind (p : dpc) : Prop :=
-  match pc_cont p with Some (DRetry _) | Some (DDone _) | None => True | _ => False end.
+  match p with
+  | QCheck | QTake | QShutTake | QStopped | QScan _ _ _ | QRFinish _ _ => False
+  | _ => match pc_cont p with Some (DRetry _) | Some (DDone _) | None => True | _ => False end
+  end.
 Definition tkind (p : dpc) : Prop :=
-  match pc_cont p with Some DTimer | Some DShutK | None => True | _ => False end.
+  match p with
+  | QWal _ | QSeq _ | QLock _ | QRelock _ | QScan _ _ _ | QRFinish _ _ => False
+  | _ => match pc_cont p with Some DTimer | Some DShutK | None => True | _ => False end
+  end.
 Definition rkind (p : dpc) : Prop :=
-  match pc_cont p with Some (DRecover _ _ _) | None => True | _ => False end.
+  match p with
+  | QWal _ | QSeq _ | QLock _ | QRelock _ | QCheck | QTake | QShutTake | QStopped => False
+  | _ => match pc_cont p with Some (DRecover _ _ _) | None => True | _ => False end
+  end.
 
 Lemma lspec_idle d v p' : pc_L p' = [] -> pc_P p' = [] -> (forall d0, own_ok d0 p') ->
   (forall m k, p' <> QTrunc m k) -> (forall m k, p' <> QPersist m k) ->
-  forall p, pc_L p = [] -> pc_P p = [] -> lspec d v p d v p'.
+  forall p, pc_L p = [] -> pc_P p = [] -> (forall r, p <> QWal r) -> lspec d v p d v p'.
 Proof.
-  intros HL HP Ho Ht Hp p HL0 HP0.
+  intros HL HP Ho Ht Hp p HL0 HP0 Hnw.
   constructor; intros; rewrite ?HL, ?HP, ?HL0, ?HP0 in *; auto using dur_same.
+  - destruct H as (r & E & _). exfalso. eapply Hnw; eauto.
   - exfalso; eapply Ht; eauto.
   - exfalso; eapply Hp; eauto.
 Qed.
@@ -435,6 +449,25 @@ Qed.
 Lemma dbegin_snoc l e k : dbegin_flush (l ++ [e]) k = GPc (QPut (l ++ [e]) k).
 Proof. destruct l; reflexivity. Qed.
 
+Lemma lspec_noop d v p : (forall m k, p <> QTrunc m k) -> (forall m k, p <> QPersist m k) ->
+  (forall r, p <> QWal r) -> lspec d v p d v p.
+Proof.
+  intros Ht Hp Hnw. constructor; intros; auto using dur_same.
+  - destruct H as (r & E & _). exfalso. eapply Hnw; eauto.
+  - exfalso; eapply Ht; eauto.
+  - exfalso; eapply Hp; eauto.
+Qed.
+
+Lemma dw_after_res hw f d v w d' v' r :
+  dflush_step hw f d v (dw_pc w) = Some (d', v', r) -> wkind (dw_pc w) ->
+  res_change w (dw_after r w) v'.
+Proof.
+  unfold res_change, wkind. destruct (dw_pc w) eqn:Hpc; simpl; try discriminate; intros H Hk;
+    try destruct f; try destruct (0 <? s); inversion H; subst; clear H; simpl; auto;
+    destruct k; simpl in *; try contradiction; auto;
+    right; eexists; eexists; (split; [reflexivity|]); intros E; try discriminate; right; right; reflexivity.
+Qed.
+
 Lemma dwstep_spec c f d v w d' v' w' :
   dwstep c f d v w = (d', v', w') -> wkind (dw_pc w) ->
   lspec d v (dw_pc w) d' v' (dw_pc w') /\ wkind (dw_pc w') /\ res_change w w' v'.
@@ -460,9 +493,11 @@ Proof.
     + unfold vL in *. rewrite E5, E6. auto.
     + unfold cat_sbs in *. rewrite E3. exact H.
     + right; left. exists r. auto.
+    + destruct H as (r0 & Er & Ex). inversion Er; subst r0. split; [|split; [rewrite Ex; reflexivity|exact E2]].
+      unfold wal_sbs. rewrite E1, map_app. apply InK_app. right. rewrite Ex. unfold InK, skey. simpl. left. reflexivity.
   - (* QSeq *)
     inversion H; subst; clear H. simpl. split; [|split; [exact I|left; reflexivity]].
-    constructor; simpl; intros; try discriminate; auto using dur_same.
+    constructor; simpl; intros; try discriminate; nofresh; auto using dur_same.
     right; left. exists e. auto.
   - (* QLock *)
     destruct (negb (db_compatible (v_buf v) e)).
@@ -471,21 +506,21 @@ Proof.
       { destruct (db_items (v_buf v)); simpl; exact I. }
       split; [|split; [exact Hk'|]].
       * destruct (db_items (v_buf v)) as [|x0 r0] eqn:Ei; simpl in *;
-          constructor; unfold vL; simpl; intros; rewrite ?Ei in *; try discriminate; auto using dur_same; inapp; tauto.
+          constructor; unfold vL; simpl; intros; rewrite ?Ei in *; try discriminate; nofresh; auto using dur_same; inapp; tauto.
       * left. destruct (db_items (v_buf v)); reflexivity.
     + destruct (cf_max_bytes (dc_c c) <? db_bytes (v_buf v) + b_size (snd e)).
       * inversion H; subst; clear H. simpl. split; [|split; [exact I|]].
-        -- constructor; unfold vL; simpl; intros; try discriminate; auto using dur_same; inapp; tauto.
+        -- constructor; unfold vL; simpl; intros; try discriminate; nofresh; auto using dur_same; inapp; tauto.
         -- right. exists e, RFull. split; [reflexivity|discriminate].
       * destruct (db_should_flush (dc_c c) (db_append (v_buf v) e)).
         -- cbn [db_items db_append] in H. rewrite dbegin_snoc in H. inversion H; subst; clear H. simpl.
            split; [|split; [exact I|left; reflexivity]].
-           constructor; unfold vL; simpl; intros; try discriminate; auto using dur_same.
+           constructor; unfold vL; simpl; intros; try discriminate; nofresh; auto using dur_same.
            ++ inapp. tauto.
            ++ inapp. tauto.
            ++ apply in_or_app. right. left. reflexivity.
         -- inversion H; subst; clear H. simpl. split; [|split; [exact I|]].
-           ++ constructor; unfold vL; simpl; intros; try discriminate; auto using dur_same; inapp; tauto.
+           ++ constructor; unfold vL; simpl; intros; try discriminate; nofresh; auto using dur_same; inapp; tauto.
            ++ right. exists e, ROk. split; [reflexivity|]. intros _. right. left. apply in_or_app. right. left. reflexivity.
   - (* QRelock *)
     destruct (negb (db_compatible (v_buf v) e)).
@@ -494,32 +529,643 @@ Proof.
       { destruct (db_items (v_buf v)); simpl; exact I. }
       split; [|split; [exact Hk'|]].
       * destruct (db_items (v_buf v)) as [|x0 r0] eqn:Ei; simpl in *;
-          constructor; unfold vL; simpl; intros; rewrite ?Ei in *; try discriminate; auto using dur_same; inapp; tauto.
+          constructor; unfold vL; simpl; intros; rewrite ?Ei in *; try discriminate; nofresh; auto using dur_same; inapp; tauto.
       * left. destruct (db_items (v_buf v)); reflexivity.
     + destruct (cf_max_bytes (dc_c c) <? db_bytes (v_buf v) + b_size (snd e)).
       * inversion H; subst; clear H. simpl. split; [|split; [exact I|]].
-        -- constructor; unfold vL; simpl; intros; try discriminate; auto using dur_same; inapp; tauto.
+        -- constructor; unfold vL; simpl; intros; try discriminate; nofresh; auto using dur_same; inapp; tauto.
         -- right. exists e, RFull. split; [reflexivity|discriminate].
       * destruct (db_should_flush (dc_c c) (db_append (v_buf v) e)).
         -- cbn [db_items db_append] in H. rewrite dbegin_snoc in H. inversion H; subst; clear H. simpl.
            split; [|split; [exact I|left; reflexivity]].
-           constructor; unfold vL; simpl; intros; try discriminate; auto using dur_same.
+           constructor; unfold vL; simpl; intros; try discriminate; nofresh; auto using dur_same.
            ++ inapp. tauto.
            ++ inapp. tauto.
            ++ apply in_or_app. right. left. reflexivity.
         -- inversion H; subst; clear H. simpl. split; [|split; [exact I|]].
-           ++ constructor; unfold vL; simpl; intros; try discriminate; auto using dur_same; inapp; tauto.
+           ++ constructor; unfold vL; simpl; intros; try discriminate; nofresh; auto using dur_same; inapp; tauto.
            ++ right. exists e, ROk. split; [reflexivity|]. intros _. right. left. apply in_or_app. right. left. reflexivity.
-  - admit.
-  - admit.
-  - admit.
-  - admit.
-  - admit.
-  - admit.
-  - admit.
-  - admit.
-  - admit.
-  - admit.
-  - admit.
-  - admit.
-Abort.
+  - (* QPut *)
+    match type of H with match ?X with _ => _ end = _ => destruct X as [[[d1 v1] r]|] eqn:Ef end;
+      [|simpl in Ef; try destruct f; try destruct (0 <? s); discriminate].
+    inversion H; subst; clear H.
+    pose proof (flush_res_kind_w _ _ _ _ _ _ _ _ Ef Hk) as Hr.
+    destruct (dw_after_ok r w Hr) as [Ha Hk'].
+    split; [eapply flush_lspec; eauto|split; [exact Hk'|]].
+    rewrite <- Hpc in Ef |- *. eapply dw_after_res; [exact Ef|rewrite Hpc; exact Hk].
+  - (* QReg *)
+    match type of H with match ?X with _ => _ end = _ => destruct X as [[[d1 v1] r]|] eqn:Ef end;
+      [|simpl in Ef; try destruct f; try destruct (0 <? s); discriminate].
+    inversion H; subst; clear H.
+    pose proof (flush_res_kind_w _ _ _ _ _ _ _ _ Ef Hk) as Hr.
+    destruct (dw_after_ok r w Hr) as [Ha Hk'].
+    split; [eapply flush_lspec; eauto|split; [exact Hk'|]].
+    rewrite <- Hpc in Ef |- *. eapply dw_after_res; [exact Ef|rewrite Hpc; exact Hk].
+  - (* QLoad *)
+    match type of H with match ?X with _ => _ end = _ => destruct X as [[[d1 v1] r]|] eqn:Ef end;
+      [|simpl in Ef; try destruct f; try destruct (0 <? s); discriminate].
+    inversion H; subst; clear H.
+    pose proof (flush_res_kind_w _ _ _ _ _ _ _ _ Ef Hk) as Hr.
+    destruct (dw_after_ok r w Hr) as [Ha Hk'].
+    split; [eapply flush_lspec; eauto|split; [exact Hk'|]].
+    rewrite <- Hpc in Ef |- *. eapply dw_after_res; [exact Ef|rewrite Hpc; exact Hk].
+  - (* QTrunc *)
+    match type of H with match ?X with _ => _ end = _ => destruct X as [[[d1 v1] r]|] eqn:Ef end;
+      [|simpl in Ef; try destruct f; try destruct (0 <? s); discriminate].
+    inversion H; subst; clear H.
+    pose proof (flush_res_kind_w _ _ _ _ _ _ _ _ Ef Hk) as Hr.
+    destruct (dw_after_ok r w Hr) as [Ha Hk'].
+    split; [eapply flush_lspec; eauto|split; [exact Hk'|]].
+    rewrite <- Hpc in Ef |- *. eapply dw_after_res; [exact Ef|rewrite Hpc; exact Hk].
+  - (* QPersist *)
+    match type of H with match ?X with _ => _ end = _ => destruct X as [[[d1 v1] r]|] eqn:Ef end;
+      [|simpl in Ef; try destruct f; try destruct (0 <? s); discriminate].
+    inversion H; subst; clear H.
+    pose proof (flush_res_kind_w _ _ _ _ _ _ _ _ Ef Hk) as Hr.
+    destruct (dw_after_ok r w Hr) as [Ha Hk'].
+    split; [eapply flush_lspec; eauto|split; [exact Hk'|]].
+    rewrite <- Hpc in Ef |- *. eapply dw_after_res; [exact Ef|rewrite Hpc; exact Hk].
+  - (* QFin *)
+    match type of H with match ?X with _ => _ end = _ => destruct X as [[[d1 v1] r]|] eqn:Ef end;
+      [|simpl in Ef; try destruct f; try destruct (0 <? s); discriminate].
+    inversion H; subst; clear H.
+    pose proof (flush_res_kind_w _ _ _ _ _ _ _ _ Ef Hk) as Hr.
+    destruct (dw_after_ok r w Hr) as [Ha Hk'].
+    split; [eapply flush_lspec; eauto|split; [exact Hk'|]].
+    rewrite <- Hpc in Ef |- *. eapply dw_after_res; [exact Ef|rewrite Hpc; exact Hk].
+  - (* QCheck *)
+    simpl in H. inversion H; subst; clear H. rewrite Hpc.
+    split; [|split; [exact Hk|left; reflexivity]].
+    apply lspec_noop; intros; discriminate.
+  - (* QTake *)
+    simpl in H. inversion H; subst; clear H. rewrite Hpc.
+    split; [|split; [exact Hk|left; reflexivity]].
+    apply lspec_noop; intros; discriminate.
+  - (* QShutTake *)
+    simpl in H. inversion H; subst; clear H. rewrite Hpc.
+    split; [|split; [exact Hk|left; reflexivity]].
+    apply lspec_noop; intros; discriminate.
+  - (* QStopped *)
+    simpl in H. inversion H; subst; clear H. rewrite Hpc.
+    split; [|split; [exact Hk|left; reflexivity]].
+    apply lspec_noop; intros; discriminate.
+  - (* QScan *)
+    simpl in H. inversion H; subst; clear H. rewrite Hpc.
+    split; [|split; [exact Hk|left; reflexivity]].
+    apply lspec_noop; intros; discriminate.
+  - (* QRFinish *)
+    simpl in H. inversion H; subst; clear H. rewrite Hpc.
+    split; [|split; [exact Hk|left; reflexivity]].
+    apply lspec_noop; intros; discriminate.
+Qed.
+
+(* ---------------- timer ---------------- *)
+Definition res_kind_t (r : dfres) : Prop :=
+  match r with
+  | GPc p => tkind p
+  | GOk DTimer | GOk DShutK | GErr DTimer | GErr DShutK => True
+  | _ => False
+  end.
+
+Lemma dt_after_ok r : res_kind_t r -> after_ok r (dt_after r) /\ tkind (dt_after r).
+Proof.
+  destruct r as [q|k|k]; simpl; intros Hk.
+  - split; [reflexivity|exact Hk].
+  - destruct k; simpl in *; try contradiction; (split; [|exact I]); repeat split; intros; simpl in *; try tauto; try discriminate.
+  - destruct k; simpl in *; try contradiction; (split; [|exact I]); repeat split; intros; simpl in *; try tauto; try discriminate.
+Qed.
+
+Lemma flush_res_kind_t hw f d v p d' v' r :
+  dflush_step hw f d v p = Some (d', v', r) -> tkind p -> res_kind_t r.
+Proof.
+  unfold tkind. destruct p; simpl; try discriminate; intros H Hk;
+    try (destruct f); try (destruct (0 <? s)); inversion H; subst; simpl; unfold tkind; simpl;
+    destruct k; simpl in *; auto.
+Qed.
+
+Lemma dtstep_spec shut f d v p d' v' p' :
+  dtstep shut f d v p = (d', v', p') -> tkind p -> lspec d v p d' v' p' /\ tkind p'.
+Proof.
+  unfold dtstep. intros H Hk.
+  assert (Hflush : forall d1 v1 r, dflush_step true f d v p = Some (d1, v1, r) ->
+                   (d1, v1, dt_after r) = (d', v', p') -> lspec d v p d' v' p' /\ tkind p').
+  { intros d1 v1 r Ef E. inversion E; subst; clear E.
+    pose proof (flush_res_kind_t _ _ _ _ _ _ _ _ Ef Hk) as Hr.
+    destruct (dt_after_ok r Hr) as [Ha Hk']. split; [eapply flush_lspec; eauto|exact Hk']. }
+  assert (Hnoop : (forall m k, p <> QTrunc m k) -> (forall m k, p <> QPersist m k) ->
+                  (d, v, p) = (d', v', p') -> lspec d v p d' v' p' /\ tkind p').
+  { intros H1 H2 E. inversion E; subst. split; [apply lspec_noop; try assumption; intros r0 E0; subst; simpl in Hk; contradiction|exact Hk]. }
+  destruct p.
+  - (* QIdle *)
+    destruct shut; inversion H; subst; (split; [|exact I]);
+      apply lspec_idle; intros; auto; try discriminate; simpl; auto.
+  - apply Hnoop; [intros; discriminate|intros; discriminate|exact H].
+  - apply Hnoop; [intros; discriminate|intros; discriminate|exact H].
+  - apply Hnoop; [intros; discriminate|intros; discriminate|exact H].
+  - apply Hnoop; [intros; discriminate|intros; discriminate|exact H].
+  - destruct (dflush_step true f d v (QPut bs k)) as [[[d1 v1] r]|] eqn:Ef; [eapply Hflush; eauto|destruct f; discriminate].
+  - destruct (dflush_step true f d v (QReg bs k)) as [[[d1 v1] r]|] eqn:Ef; [eapply Hflush; eauto|destruct f; discriminate].
+  - destruct (dflush_step true f d v (QLoad k)) as [[[d1 v1] r]|] eqn:Ef; [eapply Hflush; eauto|discriminate].
+  - destruct (dflush_step true f d v (QTrunc s k)) as [[[d1 v1] r]|] eqn:Ef; [eapply Hflush; eauto|simpl in Ef; destruct (0 <? s); discriminate].
+  - destruct (dflush_step true f d v (QPersist s k)) as [[[d1 v1] r]|] eqn:Ef; [eapply Hflush; eauto|discriminate].
+  - destruct (dflush_step true f d v (QFin k)) as [[[d1 v1] r]|] eqn:Ef; [eapply Hflush; eauto|discriminate].
+  - (* QCheck *)
+    destruct (negb (db_is_empty (v_buf v))); inversion H; subst; (split; [|exact I]);
+      apply lspec_idle; intros; auto; try discriminate; simpl; auto.
+  - (* QTake *)
+    inversion H; subst; clear H.
+    destruct (db_items (v_buf v)) as [|x0 r0] eqn:Ei; simpl; (split; [|exact I]);
+      constructor; unfold vL; simpl; intros; rewrite ?Ei in *; try discriminate; nofresh; auto using dur_same; inapp; tauto.
+  - (* QShutTake *)
+    inversion H; subst; clear H.
+    destruct (db_items (v_buf v)) as [|x0 r0] eqn:Ei; simpl; (split; [|exact I]);
+      constructor; unfold vL; simpl; intros; rewrite ?Ei in *; try discriminate; nofresh; auto using dur_same; inapp; tauto.
+  - (* QStopped *)
+    inversion H; subst. split; [|exact I]. apply lspec_noop; intros; discriminate.
+  - apply Hnoop; [intros; discriminate|intros; discriminate|exact H].
+  - apply Hnoop; [intros; discriminate|intros; discriminate|exact H].
+Qed.
+
+(* ---------------- ensure_wal ---------------- *)
+Definition res_kind_r (r : dfres) : Prop :=
+  match r with
+  | GPc p => rkind p
+  | GOk (DRecover _ _ _) | GErr (DRecover _ _ _) => True
+  | _ => False
+  end.
+
+Lemma flush_res_kind_r hw f d v p d' v' r :
+  dflush_step hw f d v p = Some (d', v', r) -> rkind p -> res_kind_r r.
+Proof.
+  unfold rkind. destruct p; simpl; try discriminate; intros H Hk;
+    try (destruct f); try (destruct (0 <? s)); inversion H; subst; simpl; unfold rkind; simpl;
+    destruct k; simpl in *; auto.
+Qed.
+
+Lemma dr_after_ok r p' : res_kind_r r -> dr_after r = RPc p' -> after_ok r p' /\ rkind p'.
+Proof.
+  destruct r as [q|k|k]; simpl; intros Hk E.
+  - inversion E; subst. split; [reflexivity|exact Hk].
+  - destruct k; simpl in *; try contradiction. inversion E; subst. simpl.
+    split; [|exact I]. repeat split; intros; simpl in *; try tauto; try discriminate.
+  - discriminate.
+Qed.
+
+Lemma dr_after_not_up r : dr_after r <> RUp.
+Proof. destruct r as [q|k|k]; simpl; try discriminate; destruct k; discriminate. Qed.
+
+Lemma drstep_spec f d v p d' v' rr :
+  drstep f d v p = (d', v', rr) -> rkind p ->
+  match rr with
+  | RPc p' => lspec d v p d' v' p' /\ rkind p'
+  | RUp => lspec d v p d' v' QIdle
+  | RFail => True
+  end.
+Proof.
+  unfold drstep. intros H Hk.
+  assert (Hflush : forall d1 v1 r, dflush_step false f d v p = Some (d1, v1, r) ->
+                   (d1, v1, dr_after r) = (d', v', rr) ->
+                   match rr with RPc p' => lspec d v p d' v' p' /\ rkind p' | RUp => lspec d v p d' v' QIdle | RFail => True end).
+  { intros d1 v1 r Ef E. inversion E; subst; clear E.
+    pose proof (flush_res_kind_r _ _ _ _ _ _ _ _ Ef Hk) as Hr.
+    destruct (dr_after r) as [p'| |] eqn:Er; [|exfalso; eapply dr_after_not_up; eauto|exact I].
+    destruct (dr_after_ok r p' Hr Er) as [Ha Hk']. split; [eapply flush_lspec; eauto|exact Hk']. }
+  assert (Hnoop : (forall m k, p <> QTrunc m k) -> (forall m k, p <> QPersist m k) ->
+                  (d, v, RPc p) = (d', v', rr) ->
+                  match rr with RPc p' => lspec d v p d' v' p' /\ rkind p' | RUp => lspec d v p d' v' QIdle | RFail => True end).
+  { intros H1 H2 E. inversion E; subst. split; [apply lspec_noop; try assumption; intros r0 E0; subst; simpl in Hk; contradiction|exact Hk]. }
+  destruct p.
+  - apply Hnoop; [intros; discriminate|intros; discriminate|exact H].
+  - apply Hnoop; [intros; discriminate|intros; discriminate|exact H].
+  - apply Hnoop; [intros; discriminate|intros; discriminate|exact H].
+  - apply Hnoop; [intros; discriminate|intros; discriminate|exact H].
+  - apply Hnoop; [intros; discriminate|intros; discriminate|exact H].
+  - destruct (dflush_step false f d v (QPut bs k)) as [[[d1 v1] r]|] eqn:Ef; [eapply Hflush; eauto|destruct f; discriminate].
+  - destruct (dflush_step false f d v (QReg bs k)) as [[[d1 v1] r]|] eqn:Ef; [eapply Hflush; eauto|destruct f; discriminate].
+  - destruct (dflush_step false f d v (QLoad k)) as [[[d1 v1] r]|] eqn:Ef; [eapply Hflush; eauto|discriminate].
+  - destruct (dflush_step false f d v (QTrunc s k)) as [[[d1 v1] r]|] eqn:Ef; [eapply Hflush; eauto|simpl in Ef; destruct (0 <? s); discriminate].
+  - destruct (dflush_step false f d v (QPersist s k)) as [[[d1 v1] r]|] eqn:Ef; [eapply Hflush; eauto|discriminate].
+  - destruct (dflush_step false f d v (QFin k)) as [[[d1 v1] r]|] eqn:Ef; [eapply Hflush; eauto|discriminate].
+  - apply Hnoop; [intros; discriminate|intros; discriminate|exact H].
+  - apply Hnoop; [intros; discriminate|intros; discriminate|exact H].
+  - apply Hnoop; [intros; discriminate|intros; discriminate|exact H].
+  - apply Hnoop; [intros; discriminate|intros; discriminate|exact H].
+  - (* QScan *)
+    destruct rest as [|e r0].
+    + inversion H; subst; clear H. split; [|exact I].
+      constructor; unfold vL; simpl; intros; try discriminate; nofresh; auto using dur_same; inapp; tauto.
+    + destruct (db_compatible (v_buf v) e).
+      * inversion H; subst; clear H. split; [|exact I].
+        constructor; unfold vL; simpl; intros; try discriminate; nofresh; auto using dur_same; inapp; tauto.
+      * destruct (db_items (v_buf v)) as [|x0 r1] eqn:Ei; simpl in H; inversion H; subst; clear H; (split; [|exact I]);
+          constructor; unfold vL; simpl; intros; rewrite ?Ei in *; try discriminate; nofresh; auto using dur_same;
+          try solve [inapp; tauto];
+          try solve [right; right; exists (e :: r0), maxs, fl0; auto].
+  - (* QRFinish *)
+    inversion H; subst; clear H Hnoop Hflush.
+    destruct (0 <? fl0) eqn:E0; destruct (fl0 <? maxs) eqn:E1;
+      constructor; unfold vL; simpl; intros; try discriminate; nofresh; auto using dur_same;
+      try solve [right; right; exists [], maxs, fl0; auto];
+      try solve [right; right; left; exists (fl0 + 1); split; [right; eauto|simpl; auto]].
+Qed.
+
+(* bounds carried by ensure_wal *)
+Definition rec_ok (d : durable) (v : volatile) (p : dpc) : Prop :=
+  match p with
+  | QScan _ maxs fl0 | QRFinish maxs fl0 => fl0 <= maxs /\ fl0 <= d_flushed d /\ maxs < v_next v
+  | QPut _ (DRecover _ maxs fl0) | QReg _ (DRecover _ maxs fl0) | QLoad (DRecover _ maxs fl0) =>
+      fl0 <= v_lws v /\ fl0 <= maxs /\ fl0 <= d_flushed d /\ maxs < v_next v
+  | QTrunc m (DRecover _ maxs fl0) | QPersist m (DRecover _ maxs fl0) =>
+      fl0 <= m /\ fl0 <= maxs /\ fl0 <= d_flushed d /\ maxs < v_next v
+  | QFin (DRecover _ maxs fl0) => fl0 <= maxs /\ fl0 <= d_flushed d /\ maxs < v_next v
+  | _ => True
+  end.
+
+Lemma drstep_rec_ok f d v p d' v' p' :
+  drstep f d v p = (d', v', RPc p') -> rkind p -> rec_ok d v p ->
+  (forall x, In x (pc_L p) -> fst x < v_next v) -> rec_ok d' v' p'.
+Proof.
+  unfold drstep. intros H Hk Hr Hb.
+  destruct p; simpl in H; try (inversion H; subst; exact Hr);
+    try (unfold rkind in Hk; simpl in Hk; destruct k; try contradiction).
+  - (* QPut *) destruct f; inversion H; subst; simpl in *; tauto.
+  - (* QReg *) destruct f; inversion H; subst; simpl in *; tauto.
+  - (* QTrunc *)
+    destruct (0 <? s); inversion H; subst; simpl in *; tauto.
+  - (* QPersist *) inversion H; subst. simpl in *. tauto.
+  - (* QFin *) inversion H; subst. simpl in *. tauto.
+  - (* QScan *)
+    destruct rest as [|e r0]; [inversion H; subst; simpl in *; lia|].
+    destruct (db_compatible (v_buf v) e).
+    + inversion H; subst. simpl in *. pose proof (Hb e (or_introl eq_refl)). lia.
+    + destruct (db_items (v_buf v)); simpl in H; inversion H; subst; simpl in *; repeat split; try tauto; lia.
+Qed.
+
+(* ------------------------------------------------------------------ *)
+(* the invariant                                                        *)
+(* ------------------------------------------------------------------ *)
+Definition clean_ok (s : dstate) (p : dpc) : Prop :=
+  match p with
+  | QTrunc m _ | QPersist m _ =>
+      m < v_next (ds_v s) /\ forall x, In x (Lset s) \/ In x (Pset s) -> m < fst x
+  | _ => True
+  end.
+
+Definition acked_ok (s : dstate) : Prop :=
+  forall e, In e (acked_sbs s) -> b_rows (snd e) <> [] ->
+  InK e (cat_sbs (ds_d s)) \/
+  match ds_mode s with
+  | MDown => InK e (wal_sbs (ds_d s)) /\ d_flushed (ds_d s) < fst e
+  | _ => InK e (Lset s)
+  end.
+
+Record inv (s : dstate) : Prop := {
+  i_sorted : wal_sorted (ds_d s);
+  i_next : ds_mode s <> MDown ->
+           (forall x, In x (wal_entries (ds_d s)) -> we_seq x < v_next (ds_v s))
+           /\ v_lws (ds_v s) < v_next (ds_v s) /\ d_flushed (ds_d s) < v_next (ds_v s);
+  i_live : forall x, In x (Lset s) \/ In x (Pset s) ->
+           InK x (wal_sbs (ds_d s)) /\ d_flushed (ds_d s) < fst x;
+  i_acked : acked_ok s;
+  i_clean : Forall (clean_ok s) (pcs s);
+  i_own : Forall (own_ok (ds_d s)) (pcs s);
+  i_kinds : Forall wkind (map dw_pc (ds_ws s)) /\ tkind (ds_tm s) /\ rkind (ds_rec s);
+  i_rec : rec_ok (ds_d s) (ds_v s) (ds_rec s);
+  i_mode : match ds_mode s with
+           | MDown => ds_v s = v_dead /\ Forall (fun p => p = QIdle) (pcs s)
+           | MRec => Forall (fun w => dw_pc w = QIdle) (ds_ws s) /\ ds_tm s = QIdle
+           | MUp => ds_rec s = QIdle
+           end
+}.
+
+Lemma InK_incl e l1 l2 : (forall x, In x l1 -> In x l2) -> InK e l1 -> InK e l2.
+Proof.
+  intros H Hk. destruct (InK_elim _ _ Hk) as (x & Hx & E). eapply InK_key_eq; [exact E|].
+  apply InK_intro. apply H. exact Hx.
+Qed.
+
+Lemma own_ok_mono d d' p : (forall x, In x (cat_sbs d) -> In x (cat_sbs d')) -> own_ok d p -> own_ok d' p.
+Proof.
+  intros H. destruct p; simpl; auto; destruct k; auto; apply InK_incl; exact H.
+Qed.
+
+Lemma Lset_split s j p x : nth_error (pcs s) j = Some p ->
+  (In x (Lset s) <-> In x (vL (ds_v s)) \/ In x (pc_L p) \/ In x (others pc_L j (pcs s))).
+Proof. intros H. unfold Lset. rewrite in_app_iff, (flat_others pc_L _ _ _ x H). tauto. Qed.
+
+Lemma Pset_split s j p x : nth_error (pcs s) j = Some p ->
+  (In x (Pset s) <-> In x (pc_P p) \/ In x (others pc_P j (pcs s))).
+Proof. intros H. unfold Pset. apply (flat_others pc_P _ _ _ x H). Qed.
+
+Lemma wal_key_entry d x : InK x (wal_sbs d) -> exists y, In y (wal_entries d) /\ we_seq y = fst x /\ skey (we_sb y) = skey x.
+Proof.
+  intros H. destruct (InK_elim _ _ H) as (z & Hz & E). unfold wal_sbs in Hz. apply in_map_iff in Hz.
+  destruct Hz as (y & Ey & Hy). exists y. split; [exact Hy|]. subst z. split; [|exact E].
+  unfold skey in E. simpl in E. inversion E. reflexivity.
+Qed.
+
+Lemma entry_wal_key d y : In y (wal_entries d) -> InK (we_sb y) (wal_sbs d).
+Proof. intros H. apply InK_intro. unfold wal_sbs. apply in_map. exact H. Qed.
+
+(* one thread (slot j of pcs) performs a step that satisfies the local
+   specification; everything else about the thread lists is supplied by the
+   caller *)
+Lemma thread_step_core s s' j p p' :
+  inv s -> ds_mode s <> MDown ->
+  nth_error (pcs s) j = Some p -> pcs s' = upd j p' (pcs s) ->
+  lspec (ds_d s) (ds_v s) p (ds_d s') (ds_v s') p' ->
+  (forall k, p = QLoad k -> classify s = 0) ->
+  (forall rest maxs fl0, p = QScan rest maxs fl0 \/ p = QRFinish maxs fl0 ->
+                         maxs < v_next (ds_v s) /\ fl0 <= d_flushed (ds_d s)) ->
+  (forall e, In e (acked_sbs s') -> In e (acked_sbs s) \/
+             b_rows (snd e) = [] \/ In e (db_items (v_buf (ds_v s'))) \/ after_reg p e) ->
+  ds_mode s' <> MDown ->
+  wal_sorted (ds_d s') /\
+  ((forall x, In x (wal_entries (ds_d s')) -> we_seq x < v_next (ds_v s'))
+   /\ v_lws (ds_v s') < v_next (ds_v s') /\ d_flushed (ds_d s') < v_next (ds_v s')) /\
+  (forall x, In x (Lset s') \/ In x (Pset s') -> InK x (wal_sbs (ds_d s')) /\ d_flushed (ds_d s') < fst x) /\
+  (forall e, In e (acked_sbs s') -> b_rows (snd e) <> [] -> InK e (cat_sbs (ds_d s')) \/ InK e (Lset s')) /\
+  Forall (clean_ok s') (pcs s') /\ Forall (own_ok (ds_d s')) (pcs s').
+Proof.
+  intros Iv Hup Hn Hpcs LS Hcls Hrb Hack Hup'.
+  destruct (i_next _ Iv Hup) as (Hnext & Hlws & Hfl).
+  assert (Hn' : nth_error (pcs s') j = Some p') by (rewrite Hpcs; eapply nth_error_upd_same; eauto).
+  assert (HoL : others pc_L j (pcs s') = others pc_L j (pcs s)) by (rewrite Hpcs; apply others_upd).
+  assert (HoP : others pc_P j (pcs s') = others pc_P j (pcs s)) by (rewrite Hpcs; apply others_upd).
+  assert (Hclean_p : clean_ok s p).
+  { pose proof (i_clean _ Iv) as Hc. rewrite Forall_forall in Hc. apply Hc. eapply nth_error_In; eauto. }
+  assert (Hown_p : own_ok (ds_d s) p).
+  { pose proof (i_own _ Iv) as Hc. rewrite Forall_forall in Hc. apply Hc. eapply nth_error_In; eauto. }
+  (* origin of every volatile batch of s' *)
+  assert (Horigin : forall x, In x (Lset s') \/ In x (Pset s') ->
+                    (In x (Lset s) \/ In x (Pset s)) \/ fresh_of (ds_v s) p x).
+  { intros x Hx.
+    rewrite (Lset_split s' j p' x Hn'), (Pset_split s' j p' x Hn'), HoL, HoP in Hx.
+    rewrite (Lset_split s j p x Hn), (Pset_split s j p x Hn).
+    assert (Hm : In x (vL (ds_v s') ++ pc_L p' ++ pc_P p') \/ In x (others pc_L j (pcs s)) \/ In x (others pc_P j (pcs s))).
+    { rewrite !in_app_iff. tauto. }
+    destruct Hm as [Hm|Hm]; [|tauto].
+    destruct (ls_origin _ _ _ _ _ _ LS x Hm) as [Ho|Ho]; [|right; exact Ho].
+    rewrite !in_app_iff in Ho. tauto. }
+  (* the bound used by a truncation is below every volatile batch *)
+  assert (Htrunc_safe : forall b, ((exists k, p = QTrunc b k) \/ (exists maxs fl0, p = QRFinish maxs fl0 /\ b = fl0 + 1)) ->
+                        forall x, In x (Lset s) \/ In x (Pset s) -> b <= fst x).
+  { intros b Hb x Hx. destruct Hb as [[k ->]|(maxs & fl0 & -> & ->)].
+    - simpl in Hclean_p. destruct Hclean_p as [_ Hc]. specialize (Hc x Hx). lia.
+    - destruct (Hrb [] maxs fl0 (or_intror eq_refl)) as [_ Hf]. destruct (i_live _ Iv x Hx) as [_ Hl]. lia. }
+  (* old volatile batches keep their WAL entry and stay above the mark *)
+  assert (Hold : forall x, In x (Lset s) \/ In x (Pset s) ->
+                 InK x (wal_sbs (ds_d s')) /\ d_flushed (ds_d s') < fst x).
+  { intros x Hx. destruct (i_live _ Iv x Hx) as [Hw Hf].
+    destruct (ls_dur _ _ _ _ _ _ LS) as [(E1 & E2 & E3)|[(r & Ep & E1 & E2 & E3)|[(b & Hb & E1 & E2 & E3 & E4)|(m & k & Ep & E1 & E2 & E3)]]].
+    - unfold wal_sbs. rewrite E1, E2. auto.
+    - unfold wal_sbs. rewrite E1, E2, map_app. split; [apply InK_app; left; exact Hw|exact Hf].
+    - split; [|rewrite E3; exact Hf].
+      destruct (wal_key_entry _ _ Hw) as (y & Hy & Ey & Ek).
+      eapply InK_key_eq; [exact Ek|]. apply entry_wal_key. unfold wal_entries in *. rewrite E1, E2.
+      apply in_app_or in Hy. apply in_or_app. destruct Hy as [Hy|Hy]; [left|right; exact Hy].
+      apply trunc_keeps; [|exact Hy|].
+      + pose proof (i_sorted _ Iv) as Hs. unfold wal_sorted, wal_entries, seqs in Hs. rewrite map_app in Hs.
+        apply ssorted_app in Hs. unfold seqs. tauto.
+      + rewrite Ey. apply Htrunc_safe; assumption.
+    - subst p. simpl in Hclean_p. destruct Hclean_p as [_ Hc]. unfold wal_sbs. rewrite E1, E2.
+      split; [exact Hw|apply Hc; exact Hx]. }
+  (* 1. sorted *)
+  assert (S1 : wal_sorted (ds_d s')).
+  { pose proof (i_sorted _ Iv) as Hs. unfold wal_sorted in *.
+    destruct (ls_dur _ _ _ _ _ _ LS) as [(E1 & E2 & E3)|[(r & Ep & E1 & E2 & E3)|[(b & Hb & E1 & E2 & E3 & E4)|(m & k & Ep & E1 & E2 & E3)]]].
+    - rewrite E1; exact Hs.
+    - rewrite E1. unfold seqs. rewrite map_app. apply ssorted_app. split; [exact Hs|]. split; [simpl; split; [intros y []|exact I]|].
+      intros a b Ha Hb. simpl in Hb. destruct Hb as [<-|[]]. apply in_map_iff in Ha. destruct Ha as (y & <- & Hy). apply Hnext. exact Hy.
+    - unfold wal_entries. rewrite E1, E2. apply trunc_sorted. exact Hs.
+    - rewrite E1; exact Hs. }
+  (* 2. next_seq bounds *)
+  assert (S2 : (forall x, In x (wal_entries (ds_d s')) -> we_seq x < v_next (ds_v s'))
+               /\ v_lws (ds_v s') < v_next (ds_v s') /\ d_flushed (ds_d s') < v_next (ds_v s')).
+  { assert (Hnx : v_next (ds_v s) <= v_next (ds_v s')).
+    { destruct (ls_dur _ _ _ _ _ _ LS) as [(E1 & E2 & E3)|[(r & Ep & E1 & E2 & E3)|[(b & Hb & E1 & E2 & E3 & E4)|(m & k & Ep & E1 & E2 & E3)]]]; lia. }
+    split; [|split].
+    - destruct (ls_dur _ _ _ _ _ _ LS) as [(E1 & E2 & E3)|[(r & Ep & E1 & E2 & E3)|[(b & Hb & E1 & E2 & E3 & E4)|(m & k & Ep & E1 & E2 & E3)]]].
+      + rewrite E1. intros x Hx. specialize (Hnext x Hx). lia.
+      + rewrite E1. intros x Hx. apply in_app_or in Hx. destruct Hx as [Hx|[<-|[]]]; [specialize (Hnext x Hx); lia|simpl; lia].
+      + intros x Hx. unfold wal_entries in Hx. rewrite E1, E2 in Hx.
+        assert (Hx0 : In x (wal_entries (ds_d s))).
+        { unfold wal_entries. apply in_app_or in Hx. apply in_or_app. destruct Hx as [Hx|Hx]; [left; eapply trunc_incl; eauto|right; exact Hx]. }
+        specialize (Hnext x Hx0). lia.
+      + rewrite E1. intros x Hx. specialize (Hnext x Hx). lia.
+    - destruct (ls_lws _ _ _ _ _ _ LS) as [E|[(e & Ep & E)|(rest & maxs & fl0 & Ep & E)]].
+      + lia.
+      + rewrite E. subst p.
+        assert (Hin : In e (Pset s)).
+        { apply (Pset_split s j (QSeq e) e Hn). left. simpl. auto. }
+        destruct (i_live _ Iv e (or_intror Hin)) as [Hw _]. destruct (wal_key_entry _ _ Hw) as (y & Hy & Ey & _).
+        specialize (Hnext y Hy). lia.
+      + rewrite E. destruct (Hrb rest maxs fl0 Ep) as [Hm _]. lia.
+    - destruct (ls_dur _ _ _ _ _ _ LS) as [(E1 & E2 & E3)|[(r & Ep & E1 & E2 & E3)|[(b & Hb & E1 & E2 & E3 & E4)|(m & k & Ep & E1 & E2 & E3)]]]; try lia.
+      subst p. simpl in Hclean_p. destruct Hclean_p as [Hc _]. lia. }
+  (* 3. live *)
+  assert (S3 : forall x, In x (Lset s') \/ In x (Pset s') -> InK x (wal_sbs (ds_d s')) /\ d_flushed (ds_d s') < fst x).
+  { intros x Hx. destruct (Horigin x Hx) as [Ho|Hf]; [apply Hold; exact Ho|].
+    destruct (ls_fresh _ _ _ _ _ _ LS x Hf) as (Hw & Ex & Ef). split; [exact Hw|]. rewrite Ef, Ex. exact Hfl. }
+  (* 4. acknowledged *)
+  assert (S4 : forall e, In e (acked_sbs s') -> b_rows (snd e) <> [] -> InK e (cat_sbs (ds_d s')) \/ InK e (Lset s')).
+  { intros e He Hr. destruct (Hack e He) as [Ho|[Hz|[Hb|Ha]]].
+    - pose proof (i_acked _ Iv e Ho Hr) as Hq. destruct Hq as [Hq|Hq].
+      + left. eapply InK_incl; [apply (ls_cat _ _ _ _ _ _ LS)|exact Hq].
+      + destruct (ds_mode s); [contradiction| |];
+          (destruct (InK_elim _ _ Hq) as (x & Hx & Ek);
+           rewrite (Lset_split s j p x Hn) in Hx;
+           assert (Hm : In x (vL (ds_v s) ++ pc_L p) \/ In x (others pc_L j (pcs s))) by (rewrite in_app_iff; tauto);
+           destruct Hm as [Hm|Hm];
+           [destruct (ls_keep _ _ _ _ _ _ LS x Hm) as [Hk|Hk];
+            [right; eapply InK_key_eq; [exact Ek|]; apply InK_intro; rewrite (Lset_split s' j p' x Hn'); rewrite in_app_iff in Hk; tauto
+            |left; eapply InK_key_eq; [exact Ek|]; apply InK_intro; exact Hk]
+           |right; eapply InK_key_eq; [exact Ek|]; apply InK_intro; rewrite (Lset_split s' j p' x Hn'), HoL; tauto]).
+    - contradiction.
+    - right. apply InK_intro. unfold Lset, vL. apply in_or_app. left. apply in_or_app. left. exact Hb.
+    - left. assert (Hc : InK e (cat_sbs (ds_d s))).
+      { destruct p; simpl in Ha; try contradiction; destruct k; try contradiction; subst; exact Hown_p. }
+      eapply InK_incl; [apply (ls_cat _ _ _ _ _ _ LS)|exact Hc]. }
+  (* 5. clean *)
+  assert (Hnx : v_next (ds_v s) <= v_next (ds_v s')).
+  { destruct (ls_dur _ _ _ _ _ _ LS) as [(E1 & E2 & E3)|[(r & Ep & E1 & E2 & E3)|[(b & Hb & E1 & E2 & E3 & E4)|(m & k0 & Ep & E1 & E2 & E3)]]]; lia. }
+  assert (Hcarry : forall m, m < v_next (ds_v s) -> (forall x, In x (Lset s) \/ In x (Pset s) -> m < fst x) ->
+                   m < v_next (ds_v s') /\ (forall x, In x (Lset s') \/ In x (Pset s') -> m < fst x)).
+  { intros m Hm1 Hm2. split; [lia|]. intros x Hx. destruct (Horigin x Hx) as [Ho|Hf]; [apply Hm2; exact Ho|].
+    destruct (ls_fresh _ _ _ _ _ _ LS x Hf) as (_ & Ex & _). lia. }
+  assert (S5 : Forall (clean_ok s') (pcs s')).
+  { rewrite Hpcs. eapply Forall_upd_inv; [exact Hn|apply (i_clean _ Iv)| |].
+    - intros q Hq. destruct q; simpl in *; auto; destruct Hq as [Hq1 Hq2]; apply Hcarry; assumption.
+    - destruct p'; simpl; auto.
+      + destruct (ls_trunc _ _ _ _ _ _ LS _ _ eq_refl) as [Ep Em]. subst s0.
+        apply Hcarry; [exact Hlws|]. apply classify_zero. eapply Hcls; eauto.
+      + pose proof (ls_persist _ _ _ _ _ _ LS _ _ eq_refl) as Ep. subst p. simpl in Hclean_p.
+        destruct Hclean_p as [Hq1 Hq2]. apply Hcarry; assumption. }
+  (* 6. own batch *)
+  assert (S6 : Forall (own_ok (ds_d s')) (pcs s')).
+  { rewrite Hpcs. eapply Forall_upd_inv; [exact Hn|apply (i_own _ Iv)| |].
+    - intros q Hq. eapply own_ok_mono; [apply (ls_cat _ _ _ _ _ _ LS)|exact Hq].
+    - apply (ls_own _ _ _ _ _ _ LS). exact Hown_p. }
+  split; [exact S1|]. split; [exact S2|]. split; [exact S3|]. split; [exact S4|]. split; [exact S5|exact S6].
+Qed.
+
+(* ------------------------------------------------------------------ *)
+(* list plumbing for the three thread slots                             *)
+(* ------------------------------------------------------------------ *)
+Lemma map_upd {A B} (f : A -> B) l : forall i a, map f (upd i a l) = upd i (f a) (map f l).
+Proof. induction l as [|y r IH]; intros [|j] a; simpl; auto. rewrite IH. reflexivity. Qed.
+
+Lemma upd_app_l {A} (l1 l2 : list A) : forall i a, (i < length l1)%nat -> upd i a (l1 ++ l2) = upd i a l1 ++ l2.
+Proof.
+  induction l1 as [|y r IH]; intros i a Hi; simpl in *; [lia|]. destruct i as [|j]; simpl; [reflexivity|].
+  rewrite IH by lia. reflexivity.
+Qed.
+
+Lemma upd_app_r {A} (l1 l2 : list A) : forall i a, upd (length l1 + i) a (l1 ++ l2) = l1 ++ upd i a l2.
+Proof. induction l1 as [|y r IH]; intros i a; simpl; [reflexivity|]. rewrite IH. reflexivity. Qed.
+
+Lemma nth_error_app_len {A} (l1 l2 : list A) i : nth_error (l1 ++ l2) (length l1 + i) = nth_error l2 i.
+Proof. induction l1; simpl; auto. Qed.
+
+Lemma pcs_w s i w : nth_error (ds_ws s) i = Some w -> nth_error (pcs s) i = Some (dw_pc w).
+Proof.
+  intros H. unfold pcs. rewrite nth_error_app1.
+  - rewrite nth_error_map, H. reflexivity.
+  - rewrite map_length. apply nth_error_Some. congruence.
+Qed.
+
+Lemma pcs_upd_w ws tm rec i w' w : nth_error ws i = Some w ->
+  map dw_pc (upd i w' ws) ++ [tm; rec] = upd i (dw_pc w') (map dw_pc ws ++ [tm; rec]).
+Proof.
+  intros H. rewrite map_upd, upd_app_l; [reflexivity|]. rewrite map_length. apply nth_error_Some. congruence.
+Qed.
+
+Lemma pcs_tm s : nth_error (pcs s) (length (ds_ws s)) = Some (ds_tm s).
+Proof.
+  unfold pcs. replace (length (ds_ws s)) with (length (map dw_pc (ds_ws s)) + 0)%nat by (rewrite map_length; lia).
+  rewrite nth_error_app_len. reflexivity.
+Qed.
+
+Lemma pcs_upd_tm ws tm rec p' : map dw_pc ws ++ [p'; rec] = upd (length ws) p' (map dw_pc ws ++ [tm; rec]).
+Proof.
+  replace (length ws) with (length (map dw_pc ws) + 0)%nat by (rewrite map_length; lia).
+  rewrite upd_app_r. reflexivity.
+Qed.
+
+Lemma pcs_rec s : nth_error (pcs s) (S (length (ds_ws s))) = Some (ds_rec s).
+Proof.
+  unfold pcs. replace (S (length (ds_ws s))) with (length (map dw_pc (ds_ws s)) + 1)%nat by (rewrite map_length; lia).
+  rewrite nth_error_app_len. reflexivity.
+Qed.
+
+Lemma pcs_upd_rec ws tm rec p' : map dw_pc ws ++ [tm; p'] = upd (S (length ws)) p' (map dw_pc ws ++ [tm; rec]).
+Proof.
+  replace (S (length ws)) with (length (map dw_pc ws) + 1)%nat by (rewrite map_length; lia).
+  rewrite upd_app_r. reflexivity.
+Qed.
+
+Definition w_acked (w : dwthread) : list sb :=
+  flat_map (fun x : sb * wres => match snd x with ROk => [fst x] | _ => [] end) (dw_res w).
+
+Lemma w_acked_snoc res e r todo pc :
+  w_acked (mkDw pc todo (res ++ [(e, r)])) = w_acked (mkDw pc todo res) ++ (match r with ROk => [e] | _ => [] end).
+Proof. unfold w_acked. simpl. rewrite flat_map_app. simpl. rewrite app_nil_r. reflexivity. Qed.
+
+Lemma idle_flat (f : dpc -> list sb) l : f QIdle = [] -> Forall (fun p => p = QIdle) l -> flat_map f l = [].
+Proof.
+  intros Hf H. induction H as [|p r Hp _ IH]; simpl; [reflexivity|]. subst p. rewrite Hf, IH. reflexivity.
+Qed.
+
+(* flag is sticky *)
+Lemma set_flag_sticky s p : ds_flag s <> 0 -> set_flag s p = ds_flag s.
+Proof.
+  intros H. unfold set_flag. destruct p; auto. destruct (ds_flag s =? 0) eqn:E; [apply N.eqb_eq in E; contradiction|reflexivity].
+Qed.
+
+Lemma flag_sticky c l s : ds_flag s <> 0 -> ds_flag (dstep c l s) = ds_flag s.
+Proof.
+  intros H. destruct l as [i f|f| | |f|]; simpl.
+  - destruct (ds_mode s); auto. destruct (nth_error (ds_ws s) i) as [w|]; auto.
+    destruct (dwstep c f (ds_d s) (ds_v s) w) as [[d' v'] w']. simpl. apply set_flag_sticky; exact H.
+  - destruct (ds_mode s); auto.
+    destruct (dtstep (ds_shut s) f (ds_d s) (ds_v s) (ds_tm s)) as [[d' v'] p']. simpl. apply set_flag_sticky; exact H.
+  - destruct (ds_mode s); auto. destruct (ds_tm s); auto. destruct (ds_shut s); auto.
+  - destruct (ds_mode s); auto.
+  - destruct (ds_mode s); auto.
+    destruct (drstep f (ds_d s) (ds_v s) (ds_rec s)) as [[d' v'] r]. destruct r; simpl; apply set_flag_sticky; exact H.
+  - destruct (ds_mode s); auto.
+Qed.
+
+Lemma flag_sticky_run c ls : forall s, ds_flag s <> 0 -> ds_flag (drun c ls s) = ds_flag s.
+Proof.
+  induction ls as [|l t IH]; intros s H; simpl; [reflexivity|].
+  rewrite IH; [apply flag_sticky; exact H|rewrite flag_sticky; exact H].
+Qed.
+
+Lemma set_flag_zero s p : set_flag s p = 0 -> ds_flag s = 0 /\ (forall k, p = QLoad k -> classify s = 0).
+Proof.
+  unfold set_flag. destruct p; intros H; try (split; [exact H|intros; discriminate]).
+  destruct (ds_flag s =? 0) eqn:E.
+  - apply N.eqb_eq in E. split; [exact E|intros; exact H].
+  - apply N.eqb_neq in E. contradiction.
+Qed.
+
+(* ------------------------------------------------------------------ *)
+(* crash (and a failed ensure_wal): the process goes down               *)
+(* ------------------------------------------------------------------ *)
+Lemma pcs_all_idle ws : Forall (fun w => dw_pc w = QIdle) ws ->
+  Forall (fun p => p = QIdle) (map dw_pc ws ++ [QIdle; QIdle]).
+Proof.
+  intros H. apply Forall_app. split.
+  - induction H; simpl; constructor; auto.
+  - repeat constructor.
+Qed.
+
+Lemma go_down s d' ws' fl :
+  inv s -> ds_mode s <> MDown ->
+  wal_entries d' = wal_entries (ds_d s) -> d_flushed d' = d_flushed (ds_d s) ->
+  (forall x, In x (cat_sbs (ds_d s)) -> In x (cat_sbs d')) ->
+  Forall (fun w => dw_pc w = QIdle) ws' ->
+  (forall e, In e (flat_map w_acked ws') -> In e (acked_sbs s)) ->
+  inv (mkDs d' v_dead MDown ws' QIdle QIdle false fl).
+Proof.
+  intros Iv Hup Ew Ef Hc Hidle Hack.
+  pose proof (pcs_all_idle ws' Hidle) as Hpcs.
+  assert (HL : Lset (mkDs d' v_dead MDown ws' QIdle QIdle false fl) = []).
+  { unfold Lset, vL, pcs. simpl. apply idle_flat; [reflexivity|exact Hpcs]. }
+  assert (HP : Pset (mkDs d' v_dead MDown ws' QIdle QIdle false fl) = []).
+  { unfold Pset, pcs. simpl. apply idle_flat; [reflexivity|exact Hpcs]. }
+  constructor; simpl.
+  - unfold wal_sorted. rewrite Ew. apply (i_sorted _ Iv).
+  - intros H; contradiction.
+  - intros x Hx. rewrite HL, HP in Hx. destruct Hx as [[]|[]].
+  - intros e He Hr. simpl in He.
+    pose proof (i_acked _ Iv e (Hack e He) Hr) as Hq. destruct Hq as [Hq|Hq].
+    + left. eapply InK_incl; [exact Hc|exact Hq].
+    + right. simpl. unfold wal_sbs. rewrite Ew, Ef.
+      destruct (ds_mode s); [contradiction| |];
+        (destruct (InK_elim _ _ Hq) as (x & Hx & Ek);
+         destruct (i_live _ Iv x (or_introl Hx)) as [Hw Hf];
+         split; [eapply InK_key_eq; [exact Ek|exact Hw]|];
+         unfold skey in Ek; inversion Ek as [[E1 E2]]; rewrite <- E1; exact Hf).
+  - eapply Forall_impl; [|exact Hpcs]. intros p ->. exact I.
+  - eapply Forall_impl; [|exact Hpcs]. intros p ->. exact I.
+  - split; [|split; exact I]. clear - Hidle. induction Hidle as [|w r Hw _ IH]; simpl; constructor; auto. rewrite Hw. exact I.
+  - exact I.
+  - split; [reflexivity|exact Hpcs].
+Qed.
+
+Lemma crash_w_idle ws : Forall (fun w => dw_pc w = QIdle) (map crash_w ws).
+Proof.
+  induction ws as [|w r IH]; simpl; constructor; auto.
+  unfold crash_w. destruct (pc_batch (dw_pc w)); reflexivity.
+Qed.
+
+Lemma crash_w_acked ws e : In e (flat_map w_acked (map crash_w ws)) -> In e (flat_map w_acked ws).
+Proof.
+  induction ws as [|w r IH]; simpl; [auto|]. rewrite !in_app_iff. intros [H|H]; [left|right; apply IH; exact H].
+  unfold crash_w in H. destruct (pc_batch (dw_pc w)) as [b|].
+  - unfold dw_finish in H. rewrite w_acked_snoc in H. simpl in H. rewrite app_nil_r in H.
+    destruct w; exact H.
+  - destruct w; exact H.
+Qed.
